@@ -34,8 +34,10 @@ def run(ctx):
     ctx.cov.update({
         "traces_validated_against_impl": len(rows), "evaluations": sum(1 for c in rows for e in c["evs"] if e["e"] == "ret"),
         "distinct_nontrivial": sum(1 for c in rows if c["pause"] > 0 or c["launches"] > 1),
-        "rule": "schedules {daemon Done() immediately | after 50 ms} x {launcher unpaused | paused 300 ms after starting the daemon} x "
-                "{1 | 3 concurrent Launch calls with different handler names}, real processes; non-trivial = paused or concurrent",
+        "rule": "schedules {daemon Done() immediately | after 50 ms | after 6 s} x {launcher unpaused | paused 300 ms after starting the daemon} x "
+                "{1 | 3 concurrent Launch calls with different handler names}, real processes; callers that changed their environment "
+                "first; daemons writing heartbeats to stdout / stderr after Done(), looked at 0.4 s after the caller exited; "
+                "non-trivial = paused or concurrent",
         "exhaustive": True, "schedules": len(rows),
     })
     ctx.sample([{k2: v for k2, v in e.items() if v not in ("", 0, False)} for e in rows[2]["evs"]])
